@@ -248,6 +248,35 @@ def check_case(case, ctx):
     K = f'{ID}'
     if snapshot(merged) != geo_before:
         ctx.violation('ids-and-geometry-unaltered', f'{K}/geometry-or-ids-changed', f'engines {engines}')
+    # the storage of a pruned logit must not matter: the same engine outputs with one pruned entry held as an explicitly stored 0.0 (pruning in
+    # place without eliminate_zeros) instead of an implicit one are merged to the same result
+    if len(engines) == 2 and n_lines == 1 and VARIANTS.index(engines[0][0]) % 3 == 0:
+        from scipy import sparse
+        res = []
+        for explicit in (False, True):
+            lays = copy.deepcopy(pristine)
+            for lay in lays:
+                for ln in lay.lines_iterator():
+                    D = ln.logits.toarray()
+                    r, c = D.shape[0] - 1, int(np.argmin(D[-1]))
+                    if explicit:
+                        D[r, c] = 12345.0
+                        m2 = sparse.csc_matrix(D)
+                        m2.data[m2.data == 12345.0] = 0.0
+                    else:
+                        D[r, c] = 0.0
+                        m2 = sparse.csc_matrix(D)
+                    ln.logits = m2
+            mor.merge_layouts(lays)
+            ctx.executed()
+            ml = list(lays[0].lines_iterator())[0]
+            res.append((ml.transcription, list(ml.characters), None if ml.transcription_confidence is None else round(float(ml.transcription_confidence), 9)))
+        if res[0] != res[1]:
+            ctx.violation('keeps-most-confident-engine', f'{K}/depends-on-how-a-pruned-logit-is-stored',
+                          f'engines {engines}: with the pruned entry of the last frame implicit the merge gives {res[0]}, with the same entry stored as an '
+                          f'explicit 0.0 it gives {res[1]}')
+            return
+        ctx.tag('explicitly-stored-zero-logits')
     outcome = []
     for li in range(n_lines):
         cands = [list(p.lines_iterator())[li] for p in pristine]
@@ -345,5 +374,5 @@ def describe(tier):
                                                'variants': len(VARIANTS)},
         'assumptions': ['the per-character confidence is the documented one (reference implementation in the check)',
                         'engines whose line has no characters (None / empty transcription) have no confidence'],
-        'min_nontrivial': 100, 'required_tags': ['later-engine-wins', 'exact-tie-at-the-top', 'incremental-merges'],
+        'min_nontrivial': 100, 'required_tags': ['explicitly-stored-zero-logits', 'later-engine-wins', 'exact-tie-at-the-top', 'incremental-merges'],
     }
